@@ -1,20 +1,47 @@
 package main
 
 import (
-	"crypto/sha256"
 	"fmt"
 	"os"
+	"strconv"
 
-	"wa-lang.org/wa/verifbridge/compb"
+	"verif/harness/allocsim"
+	"verif/harness/tape"
+	"verif/harness/wagen"
+	"wa-lang.org/wa/verifbridge/wab"
 )
 
 func main() {
-	for _, p := range os.Args[2:] {
-		wat, wasm, err := compb.Compile(p, os.Args[1], false)
+	from, _ := strconv.Atoi(os.Args[1])
+	to, _ := strconv.Atoi(os.Args[2])
+	for i := from; i < to; i++ {
+		d := wagen.Generate(tape.NewGen(7, uint64(i)))
+		os.WriteFile("/tmp/w/gen.wa", []byte(d.Source), 0o644)
+		c, err := wab.Build("gen.wa", d.Source)
 		if err != nil {
-			fmt.Printf("ERR %s %.100v\n", p, err)
-			continue
+			fmt.Println(i, "BUILD ERR", err)
+			os.Exit(1)
 		}
-		fmt.Printf("OK %s %d %d %x\n", p, len(wat), len(wasm), sha256.Sum256(wat))
+		h := allocsim.New(allocsim.Plain, nil, c.HeapBase, 0)
+		in, err := c.Instantiate(h)
+		if err != nil {
+			fmt.Println(i, "INST ERR", err)
+			os.Exit(1)
+		}
+		in.Call("reset")
+		t := tape.NewGen(9, uint64(i))
+		for j := 0; j < 4000; j++ {
+			op := t.Draw(d.NOps)
+			a, b, cc := t.Draw(d.Slots), t.Draw(64), t.Draw(64)
+			_, err := in.Call("step", uint64(op), uint64(a), uint64(b), uint64(cc))
+			if err != nil {
+				fmt.Printf("%d step %d op=%d (%s) a=%d b=%d c=%d: %v\n", i, j, op, d.OpDesc[op], a, b, cc, err)
+				os.Exit(1)
+			}
+		}
+		in.Call("reset")
+		fmt.Println(i, "ok ops", d.NOps, "kinds", len(d.Kinds), "mallocs", h.Mallocs, "frees", h.Frees, "live", len(h.Live), h.Violation)
+		in.Close()
+		c.Close()
 	}
 }
